@@ -271,7 +271,7 @@ _XN = {"PreconditionError": "XPre", "PostconditionError": "XPost", "PassError": 
        "ValueError": "XUser"}
 
 
-def run_infra_case(t: dict, c0: int) -> dict:
+def run_infra_case(t: dict, c0: int, incoming=None) -> dict:
     import onnx_ir as ir
     x = ir.Value(name="x", type=ir.TensorType(ir.DataType.FLOAT), shape=ir.Shape([1]))
     n = ir.Node("", "Relu", [x], num_outputs=1, name="r")
@@ -288,7 +288,7 @@ def run_infra_case(t: dict, c0: int) -> dict:
     try:
         p = make_script_pass(t)
         try:
-            res = p(m0)
+            res = p(m0 if incoming is None else ir.passes.PassResult(m0, incoming))
             idx = next(i for i, m in enumerate(registry) if m is res.model)
             outcome = ("ok", idx, bool(res.modified))
         except Exception as e:  # noqa: BLE001
@@ -310,6 +310,9 @@ def infra_oracle(t: dict, obs: dict) -> list[str]:
     """The identity rule on the observation (property side, independent of the model)."""
     o = obs["outcome"]
     bad = []
+    if t.get("incoming") is not None and "plain" in obs and obs["plain"] != o:
+        bad.append(f"called with PassResult(modified={t['incoming']}) the pass returned {o}, with the Model itself {obs['plain']}: "
+                   "the result must describe this application only")
     if t.get("valid_use") and o[0] != "ok":
         # every member is well behaved and honest: the composition must not raise (in particular not trip the
         # identity rule of PassBase.__call__ on itself)
@@ -623,7 +626,7 @@ def _coq_cases(ck, tag: str, ctype: str, agree: str, terms: list[str]) -> list[i
     return out
 
 
-T_INFRA = "pterm Z * Z * (bool * bool * xres (nat * bool) * list Z)"
+T_INFRA = "option bool * (pterm Z * Z * (bool * bool * xres (nat * bool) * list Z))"
 T_API = ("list positive * list positive * list (positive * value) * bool * "
          "(bool * list positive * list positive * list (option Z * option Z * option Z))")
 T_CLEAR = "list cgraph * (list cgraph * bool)"
@@ -650,22 +653,27 @@ def correspondence(ck, scale: int) -> dict:
         if i % 8 == 4:
             t = gen_functional_mgr(rng)
         c0 = rng.choice([0, 1, 2, 3, 5, 9]) if i % 8 != 4 else rng.choice([0, 0, 1, 2])
-        obs = run_infra_case(t, c0)
+        incoming = rng.choice([None, None, True, False])      # a Model, or a PassResult with that flag
+        t["incoming"] = incoming
+        obs = run_infra_case(t, c0, incoming)
+        ck.hist("infra_argument", "Model" if incoming is None else f"PassResult(modified={incoming})")
         ck.count()
         o = obs["outcome"]
         ck.hist("infra_outcomes", o[1] if o[0] == "raise" else f"ok:modified={o[2]}")
         if o[0] == "raise" and o[1].startswith("OTHER"):
             ck.broken("correspondence:infra", f"unexpected exception class {o[1]} for {json.dumps(t)}")
             continue
+        if incoming is not None:
+            obs["plain"] = run_infra_case(t, c0, None)["outcome"]
         for b in infra_oracle(t, obs):
             direct_failures.append({"kind": "infra", "term": t, "c0": c0, "obs": obs, "failure": b})
         cases.append((t, c0, obs))
-        terms.append(infra_case_term(t, c0, obs))
+        terms.append(f"({copt(incoming, cbool)}, {infra_case_term(t, c0, obs)})")
         if "mgr" in t or "fun" in t or "seq" in t:
             ck.nontriv(("infra", t, c0))
         if i < 2:
             ck.sample({"family": "infra", "term": t, "c0": c0, "observed": obs})
-    fam["infra"] = (cases, terms, T_INFRA, "infra_agree")
+    fam["infra"] = (cases, terms, T_INFRA, "infra_agree_arg")
     # ---- call_onnx_api
     cases, terms = [], []
     for i in range(400 * scale):
@@ -781,7 +789,7 @@ def correspondence(ck, scale: int) -> dict:
     fam["outputfix"] = (cases, terms, T_OF, "of_agree")
     # ---- RemoveUnusedOpsets
     cases, terms = [], []
-    for i, spec in enumerate(function_family() + [I.gen_spec(rng) for _ in range(100 * scale)]):
+    for i, spec in enumerate(function_family() + subgraph_domain_family() + [I.gen_spec(rng) for _ in range(100 * scale)]):
         for pf in (True, False):
             term, mod = run_unused_opsets_case(spec, pf)
             ck.count()
@@ -1027,6 +1035,39 @@ def run_unused_opsets_case(spec: dict, process_functions: bool):
     return f"({cbool(process_functions)}, {before}, ({mod()}, {cbool(res.modified)}))", bool(res.modified)
 
 
+def subgraph_domain_family() -> list[dict]:
+    """A non-default domain that occurs ONLY inside If bodies (depth 1, depth 2, inside a function body)."""
+    def cop(pfx, x):
+        return {"name": pfx + "c", "op": "CustomOp", "domain": "custom", "ins": [x], "outs": [pfx + "v"]}
+
+    def branch(pfx, x, inner=None):
+        nodes = [inner] if inner is not None else [cop(pfx, x)]
+        return {"name": pfx + "g", "inputs": [], "inits": [], "nodes": nodes, "outputs": [nodes[0]["outs"][0]]}
+
+    def plain(pfx, x):
+        return {"name": pfx + "g", "inputs": [], "inits": [], "outputs": [pfx + "r"],
+                "nodes": [{"name": pfx + "n", "op": "Relu", "ins": [x], "outs": [pfx + "r"]}]}
+
+    def if_node(pfx, x, cond, inner=None):
+        return {"name": pfx + "if", "op": "If", "ins": [cond], "outs": [pfx + "y"], "typed": True,
+                "attrs": {"then_branch": {"graph": branch(pfx + "t", x, inner)}, "else_branch": {"graph": plain(pfx + "e", x)}}}
+
+    def model(nodes, out, funcs=(), extra=()):
+        ops = {"": 20, "custom": 1}
+        ops.update({k: 1 for k in extra})
+        g = {"name": "g", "inputs": ["x0", "cond"], "inits": [], "nodes": nodes, "outputs": [out], "opsets": ops}
+        return {"graph": g, "functions": list(funcs), "names": {}}
+    fbody = {"name": "Fg", "inputs": ["Fx", "cond"], "inits": [], "outputs": ["Fy"], "opsets": {"": 20, "custom": 1, "unused.domain": 1},
+             "nodes": [if_node("F", "Fx", "cond")]}
+    return [
+        model([if_node("a", "x0", "cond")], "ay"),                                           # depth 1
+        model([if_node("a", "x0", "cond", if_node("b", "x0", "cond"))], "ay"),               # depth 2
+        model([if_node("a", "x0", "cond")], "ay", extra=("unused.domain",)),                 # + a really unused import
+        model([{"name": "call", "op": "F0", "domain": "fdom", "ins": ["x0", "cond"], "outs": ["c1"]}], "c1",
+              funcs=[{"domain": "fdom", "name": "F0", "graph": fbody}], extra=("fdom",)),      # inside a function body
+    ]
+
+
 def gen_composition(rng, names: list[str]):
     k = rng.random()
     pick = lambda: rng.choice(names)  # noqa: E731
@@ -1092,6 +1133,12 @@ def oracle_sweep(ck, n_specs: int, n_comp: int, specs_first: list[dict]) -> list
                        {"fun": "RemoveUnusedFunctions"}):
                 run(spec, ps)
         reuse_stream(ck, specs)
+        for spec in subgraph_domain_family():  # a domain used only inside If bodies / function bodies
+            for name in names:
+                run(spec, name)
+            for ps in ({"fun": "RemoveUnusedOpsets"}, {"seq": ["RemoveUnusedOpsets", "Checker"]},
+                       {"mgr": ["RemoveUnusedNodes", "RemoveUnusedOpsets"], "steps": 2, "early": True}):
+                run(spec, ps)
         for spec in dup_output_family():      # the same value returned more than once (subgraphs, functions)
             for name in names:
                 run(spec, name)
@@ -1250,7 +1297,10 @@ def replay(rp: dict) -> int:
         print(json.dumps({"case": rp["case"], "damage": d, "raised": obs["after"]["raised"]}, indent=1))
         return 1 if d else 0
     if rp.get("kind") == "oracle-infra":
-        obs = run_infra_case(rp["term"], rp["c0"])
+        inc = rp["term"].get("incoming")
+        obs = run_infra_case(rp["term"], rp["c0"], inc)
+        if inc is not None:
+            obs["plain"] = run_infra_case(rp["term"], rp["c0"], None)["outcome"]
         bad = infra_oracle(rp["term"], obs)
         print(json.dumps({"term": rp["term"], "observed": obs, "failures": bad}, indent=1, default=str))
         return 1 if bad else 0
